@@ -144,7 +144,7 @@ pub fn build(e: &mut Ent, kind: Option<u8>, vecn: Option<u32>) -> (StepCase, Tag
         }
     }
     let code = encode(&Insn::Trapa(0));
-    (StepCase { code, pc, er, ccr, patches, bus: e.bus_cfg(), irq: None }, tag)
+    (StepCase { code, pc, er, ccr, patches, bus: e.bus_cfg(), irq: None, primer: None }, tag)
 }
 
 fn classify(case: &StepCase, j: &Judged, t: &Tag, stats: &mut Stats) {
